@@ -20,6 +20,7 @@ def F(x):
 class C12(PropertyCheck):
     pid = "C12"
     title = "translation covariance"
+    generated_modules = ["Geometry"]  # second tie: Python -> Lean translation + `rfl` against Model.Geometry
     rtol = Fraction(1, 10**9)
     atol = Fraction(1, 10**9)
     nontrivial_rule = (
